@@ -1,6 +1,6 @@
 (* C13 -- Factory: every job meets exactly one fate, never runs twice.
-   Only statements (pinned), non-vacuity examples, refutation witnesses for the two known
-   deviations of the unchanged code (F3, F4) and Print Assumptions.
+   Only statements (pinned), non-vacuity examples, refutation witnesses for the known
+   deviation F3 and for the rule before the F4 fix and Print Assumptions.
    Model: Factory/Model.v (+ Factory/Scenario.v for concrete histories); proofs: Factory/Conserve.v. *)
 From Coq Require Import List NArith Bool Permutation.
 From RV Require Import Factory.Model Factory.Scenario Factory.Oracle Factory.Conserve.
@@ -60,10 +60,25 @@ Theorem C13_replacement_inherits : forall t p acts out a' wid p' acts' out',
     /\ (length mb <= 1)%nat.
 Proof. exact replacement_inherits. Qed.
 
+(* (7) stopping: post_stop (after `fix: report jobs queued on workers to the discard handler when
+   the factory stops`, F4) leaves no job in the factory queue nor in any per-worker queue -- each is
+   handed to the discard handler with Shutdown (conservation, (1), says none is lost on the way) --
+   and once the workers are gone the factory's pool and inbox are dropped *)
+Theorem C13_stop_discards_queues : forall c w,
+  c_shutdown_worker_queues c = true ->
+  concat (fq (post_stop c w)) = [] /\ pool_jobs (pool (post_stop c w)) = []
+  /\ fstatus (post_stop c w) = FStopping.
+Proof. exact post_stop_clears. Qed.
+
+Theorem C13_finalize_empties : forall w,
+  fstatus w = FStopping -> all_workers_gone w = true ->
+  fstatus (finalize w) = FStopped /\ pool (finalize w) = [] /\ inbox_msg (finalize w) = [].
+Proof. exact finalize_empties. Qed.
+
 (* OPEN (not proved; stated for the record):
-   C13_terminal: fstatus w = FStopped -> live_jobs w = [] /\ no EDrop with cause CWorkerQueue.
-   The second half is FALSE for the unchanged code (F4, witness below); the first half needs the
-   frame invariants "held -> running" and "dead actors hold nothing", not done yet.
+   C13_terminal (global form): fstatus w = FStopped -> live_jobs w = [] for every reachable w. The
+   local halves are (7); the global form additionally needs the frame invariants "held -> running",
+   "nothing is queued while the factory is not running" and "dead actors hold nothing".
    C13_one_per_death: without stale completions a worker death loses at most one job; false
    with stale completions (F3, witness below). *)
 
@@ -79,16 +94,26 @@ Check (C13_single_fate : forall c n d rls ls,
 
 (* ---- non-vacuity and the two refutation witnesses (vm_compute on the model) *)
 Definition kp1 := mk_config RKeyPersistent false [(1,5,0);(4,5,0);(1,1,0);(4,1,1)] [].
+(* the same configuration under the rule BEFORE the F4 fix *)
+Definition kp1_prefix := mk_config_gen false RKeyPersistent false [(1,5,0);(4,5,0);(1,1,0);(4,1,1)] [].
 
-(* F4: key-persistent routing, one worker, three jobs of one key, plain stop: j1 is handled,
-   j2 and j3 were waiting in the worker's queue and are dropped with the factory state. *)
+(* F4 (fixed in /repo by 700d6bc): key-persistent routing, one worker, three jobs of one key, plain
+   stop. Under the pre-fix rule j2 and j3, waiting in the worker's queue, are dropped with the
+   factory state: neither handled, nor discarded, nor returned. *)
 Definition f4_ops := [ODispatch 1 5 None false; ODispatch 2 5 None false; ODispatch 3 5 None false;
                       OStop; OComplete 0].
-Example C13_terminal_refuted :
-  let w := scenario_final kp1 1 None [] f4_ops in
+Example C13_terminal_refuted_before_fix :
+  let w := scenario_final kp1_prefix 1 None [] f4_ops in
   fstatus w = FStopped
   /\ In (EDrop 2 (CWorkerQueue 0)) (evs w) /\ In (EDrop 3 (CWorkerQueue 0)) (evs w)
   /\ discarded_ids w = [] /\ handled_ids w = [1].
+Proof. vm_compute. intuition. Qed.
+
+(* with the fix every job has a fate the property allows, and nothing is left anywhere *)
+Example C13_terminal_after_fix :
+  let w := scenario_final kp1 1 None [] f4_ops in
+  fstatus w = FStopped /\ live_jobs w = [] /\ lost_ids w = []
+  /\ In (EDisc 2 RShutdown) (evs w) /\ In (EDisc 3 RShutdown) (evs w) /\ handled_ids w = [1].
 Proof. vm_compute. intuition. Qed.
 
 (* the scenario runner only takes model steps, so the theorems above apply to this history *)
@@ -110,8 +135,11 @@ Example C13_one_per_death_refuted :
 Proof. vm_compute. intuition. Qed.
 
 (* the executable oracle flags exactly these *)
-Example oracle_flags_f4 :
-  check_C13 kp1 1 None f4_ops (scenario_events kp1 1 None [] f4_ops) = [ASilentLoss 2 4; ASilentLoss 3 4].
+Example oracle_flags_f4_before_fix :
+  check_C13 kp1_prefix 1 None f4_ops (scenario_events kp1_prefix 1 None [] f4_ops) = [ASilentLoss 2 4; ASilentLoss 3 4].
+Proof. vm_compute. reflexivity. Qed.
+Example oracle_accepts_f4_after_fix :
+  check_C13 kp1 1 None f4_ops (scenario_events kp1 1 None [] f4_ops) = [].
 Proof. vm_compute. reflexivity. Qed.
 Example oracle_accepts_plain :
   let ops := [ODispatch 1 5 None true; ODispatch 2 5 (Some 0) true; OComplete 0; OKill 0; OQuery] in
@@ -125,3 +153,5 @@ Print Assumptions C13_single_fate.
 Print Assumptions C13_fated_not_live.
 Print Assumptions C13_no_silent_loss.
 Print Assumptions C13_replacement_inherits.
+Print Assumptions C13_stop_discards_queues.
+Print Assumptions C13_finalize_empties.
